@@ -97,6 +97,7 @@ type workerOut struct {
 	Classes     map[string]*classAgg `json:"classes"`
 	Samples     []json.RawMessage `json:"samples"`
 	Done        bool              `json:"done"`
+	Emitted     int64             `json:"emitted"` // every case the generator produced (all shards): must agree across workers
 }
 
 const journalSize = 1 << 20
@@ -256,6 +257,7 @@ func (s *Spec[T]) worker(tier string, shard, n int, out string, skipKey string) 
 		}
 	})
 	wo.Distinct = int64(len(seen))
+	wo.Emitted = idx
 	wo.Done = true
 	b, _ := json.Marshal(wo)
 	if err := os.WriteFile(out, b, 0o644); err != nil {
@@ -493,10 +495,19 @@ func (s *Spec[T]) shardedRun(tier string, rep *Report) {
 		}(sh)
 	}
 	wg.Wait()
+	emitted := int64(-1)
 	for _, wo := range outs {
 		if wo == nil {
 			continue
 		}
+		if emitted >= 0 && wo.Emitted != emitted {
+			// every worker enumerates the whole space; a disagreement means the generator is not
+			// deterministic and the shards do not partition one space
+			rep.Cap(fmt.Sprintf("HARNESS: generator not deterministic across workers (%d vs %d cases emitted)", emitted, wo.Emitted))
+			fmt.Printf("HARNESS-WARNING: generator of %s is not deterministic across workers (%d vs %d cases)\n", rep.Property, emitted, wo.Emitted)
+		}
+		emitted = wo.Emitted
+		rep.Extra["cases_generated"] = wo.Emitted
 		rep.Evaluations += wo.Evaluations
 		rep.Distinct += wo.Distinct
 		rep.NonTrivial += wo.NonTrivial
